@@ -176,6 +176,62 @@ def compare(spec, style, order):
         runs["text"] = drive(h2, tfns, spec)
     except (Exception, BudgetExceeded) as e:  # noqa
         out.append(("text/raises/%s" % type(e).__name__, "to_code build: %s: %s" % (type(e).__name__, e)))
+    # the same template state functions wired into a second chart that registers no reaction to the user signals (and the
+    # other way round: first the bare chart, then the full one): a template state's reaction belongs to the chart
+    try:
+        spec2 = dict(spec, react={})
+        tab2 = reg_table(spec2, style)
+        hand2 = run_hand(spec2, tab2)
+        for first in ("full", "bare"):
+            h1, fns = build_template(spec, tab, cbs, order)
+            t = Table(spec["parent"])
+            use(t, "spied")
+            h2 = charts.new_host("queued")
+            cbs2 = {i: {sig: cb for sig, cb in d.items() if sig in (ENTRY, EXIT, INIT)} for i, d in cbs.items()}
+            for i in range(len(fns)):
+                for sig in sorted(cbs2[i]):
+                    h2.register_signal_callback(fns[i], sig, cbs2[i][sig])
+                pr = spec["parent"][i]
+                h2.register_parent(fns[i], h2.top if pr < 0 else fns[pr])
+            if first == "full":
+                drive(h1, fns, spec)
+                r2 = drive(h2, fns, spec2)
+                want2, nm = hand2, "shared-template/second-chart-bare"
+            else:
+                drive(h2, fns, spec2)
+                r2 = drive(h1, fns, spec)
+                want2, nm = hand, "shared-template/second-chart-full"
+            runs_extra = [(nm, r2, want2)]
+            for nm, steps, want in runs_extra:
+                for k, (a, b) in enumerate(zip(steps, want)):
+                    if a[0] != b[0] or a[2] != b[2]:
+                        out.append(("%s/behaviour" % nm, "step %d: callbacks %r state %r, hand-written chart %r %r" % (k, a[0], a[2], b[0], b[2])))
+                        break
+        # a reaction registered after the chart has already seen (and passed on) the signal
+        if spec["react"] and spec["events"]:
+            h1, fns = build_template(dict(spec, react={}), reg_table(dict(spec, react={}), style),
+                                     {i: {sig: cb for sig, cb in d.items() if sig in (ENTRY, EXIT, INIT)} for i, d in cbs.items()}, order)
+            del LOG[:]
+            h1.mc_fns = fns
+            h1.start_at(fns[spec["start"]])
+            h1.post_fifo(ev(spec["events"][0]))
+            h1.next_rtc()                                   # nothing registered yet: bubbles to top
+            if h1.state_name == hand2[1][2] if len(hand2) > 1 else True:
+                for i, d in cbs.items():
+                    for sig, cb in d.items():
+                        if sig not in (ENTRY, EXIT, INIT):
+                            h1.register_signal_callback(fns[i], sig, cb)
+                del LOG[:]
+                h1.post_fifo(ev(spec["events"][0]))
+                h1.next_rtc()
+                got = (list(LOG), h1.state_name)
+                want = (hand[1][0], hand[1][2])
+                # same configuration as after start (the first event changed nothing), so the step must equal the hand chart's first step
+                if got != want:
+                    out.append(("late-registration/behaviour", "after registering the reactions late: callbacks %r state %r, hand-written chart %r %r" % (
+                        got[0], got[1], want[0], want[1])))
+    except (Exception, BudgetExceeded) as e:  # noqa
+        out.append(("shared-template/raises/%s" % type(e).__name__, "%s: %s" % (type(e).__name__, e)))
     for name, steps in runs.items():
         for k, (a, b) in enumerate(zip(steps, hand)):
             if a[0] != b[0]:
